@@ -216,6 +216,9 @@ class Report:
               "known_findings_seen": {k: len(v) for k, v in self.known.items()}}
         os.makedirs(os.path.join(ROOT, "evidence"), exist_ok=True)
         json.dump(ev, open(os.path.join(ROOT, "evidence", f"{self.pid}.json"), "w"), indent=1)
+        if self.known:
+            os.makedirs(WORK, exist_ok=True)
+            write_ndjson(os.path.join(WORK, f"{self.pid}-known.ndjson"), [dict(o, _finding=k) for k, v in self.known.items() for o in v[:50]])
         if self.violations:
             # every violation of this run, for triage (work/ is scratch space, not evidence)
             os.makedirs(WORK, exist_ok=True)
